@@ -558,14 +558,16 @@ def F6(m, R):
             K = norm(x.target) if not isinstance(x.target, ast.Tuple) else norm(x.target.elts[0])
             Vn = norm(x.target.elts[1]) if isinstance(x.target, ast.Tuple) else None
             clauses.append(('loop', src, K, Vn, x.body, None))
-        elif isinstance(x, (ast.AugAssign, ast.Assign)) and isinstance(x.value, ast.ListComp):
-            g = x.value.generators[0]
+        elif (isinstance(x, (ast.AugAssign, ast.Assign)) and isinstance(x.value, ast.ListComp)) or \
+                (isinstance(x, ast.Expr) and call_name(x.value) == 'extend' and x.value.args and isinstance(x.value.args[0], (ast.ListComp, ast.GeneratorExp))):
+            comp_ = x.value if not isinstance(x, ast.Expr) else x.value.args[0]
+            g = comp_.generators[0]
             it = norm(g.iter)
             if it in ('%s.keys()' % OLD, OLD, '%s.items()' % OLD, '%s.keys()' % NEW, NEW, '%s.items()' % NEW):
                 src = OLD if it.startswith(OLD) else NEW
                 K = norm(g.target) if not isinstance(g.target, ast.Tuple) else norm(g.target.elts[0])
                 Vn = norm(g.target.elts[1]) if isinstance(g.target, ast.Tuple) else None
-                clauses.append(('comp', src, K, Vn, g.ifs, x.value.elt))
+                clauses.append(('comp', src, K, Vn, g.ifs, comp_.elt))
     if not clauses:
         R.undecided(f, opt, 'no clause of the optimiser iterates the old or the new state', construct='optimiser state')
         return
